@@ -53,6 +53,118 @@ elab "clear_jps" : tactic => do
         try g ← g.clear ldecl.fvarId catch _ => pure ()
     replaceMainGoal [g]
 
+namespace Py
+theorem gen_const {α : Type} {P : α → Prop} (a : α) (h : ∀ x, P x) : P a := h a
+end Py
+
+namespace Py.VcImpl
+/-- Abstract the constants selected by `sel` (in the goal and in every hypothesis) into universally quantified
+variables `pfx0, pfx1, …`.  Unlike `generalize` the proof term keeps the abstraction
+(`Py.gen_const P c (fun x => …)`), so neither the elaborator nor the kernel ever sees the constant inside the proof of
+the verification conditions. -/
+def genConsts (sel : Name → Bool) (pfx : String) : TacticM Unit := do
+  let g ← getMainGoal
+  let toRevert ← g.withContext do
+    let mut r : Array FVarId := #[]
+    for ldecl in ← getLCtx do
+      if ldecl.isImplementationDetail then continue
+      let t ← instantiateMVars ldecl.type
+      if (t.find? (fun e => e.isConst && sel e.constName!)).isSome then r := r.push ldecl.fvarId
+    return r
+  let (rev, g) ← g.revert toRevert (preserveOrder := true)
+  replaceMainGoal [g]
+  let mut i := 0
+  while i < 12 do
+    let g ← getMainGoal
+    let fin ← g.withContext do
+      let tgt ← instantiateMVars (← g.getType)
+      let some c := tgt.find? (fun e => e.isConst && sel e.constName!) | return true
+      let abst ← kabstract tgt c
+      let α ← inferType c
+      let P := mkLambda `x__ .default α abst
+      let m ← mkFreshExprSyntheticOpaqueMVar (mkForall `x__ .default α abst) (tag := ← g.getTag)
+      g.assign (← mkAppOptM ``Py.gen_const #[α, P, c, m])
+      let (_, g') ← m.mvarId!.intro (Name.mkSimple s!"{pfx}{i}")
+      replaceMainGoal [g']
+      return false
+    if fin then break
+    i := i + 1
+  let g ← getMainGoal
+  let (_, g) ← g.introNP rev.size
+  replaceMainGoal [g]
+end Py.VcImpl
+
+/-- abstract the registry constants `Gen.db_*.db` (a parsed 40 KB string) -/
+elab "py_gen_db" : tactic => do
+  Py.VcImpl.genConsts (fun n => match n with
+    | .str (.str (.str .anonymous "Gen") m) "db" => m.startsWith "db_"
+    | _ => false) "db__"
+
+/-- abstract the translated functions for which the context has a call equation `Gen.f args = Except.ok r`: the getter is
+then verified by rewriting with those equations only, and the kernel cannot unfold the functions when it re-checks the
+definitional steps (`match (a, b) with …` reductions) of the rewriting -/
+elab "py_gen_fns" : tactic => withMainContext do
+  let mut names : Array Name := #[]
+  for ldecl in ← getLCtx do
+    if ldecl.isImplementationDetail then continue
+    let t ← instantiateMVars ldecl.type
+    let some (_, lhs, rhs) := t.eq? | continue
+    unless rhs.isAppOfArity ``Except.ok 3 do continue
+    let fn := lhs.getAppFn
+    if fn.isConst && fn.constName!.getRoot == `Gen && !names.contains fn.constName! then
+      names := names.push fn.constName!
+  let names2 := names
+  Py.VcImpl.genConsts (fun n => names2.contains n) "fn__"
+
+/-- rewrite the goal with the call equations `Gen.f args = Except.ok r` in the context (from `Py.graph_spec`) and
+evaluate the binds that become `ok r >>= k` -/
+syntax "py_rw_calls" (" [" ident,* "]")? : tactic
+elab_rules : tactic
+| `(tactic| py_rw_calls $[[$ids,*]]?) => withMainContext do
+  let g ← getMainGoal
+  let mut thms : SimpTheorems := {}
+  let mut n := 0
+  -- functions to unfold on the way (callees of the getter without a call equation)
+  if let some ids := ids then
+    for id in ids.getElems do
+      try
+        let c ← realizeGlobalConstNoOverloadWithInfo id
+        thms ← thms.addDeclToUnfold c
+      catch _ => pure ()
+  for ldecl in ← getLCtx do
+    if ldecl.isImplementationDetail then continue
+    let t ← instantiateMVars ldecl.type
+    let some (_, lhs, rhs) := t.eq? | continue
+    unless rhs.isAppOfArity ``Except.ok 3 do continue
+    let fn := lhs.getAppFn
+    unless (fn.isConst && fn.constName!.getRoot == `Gen) || (fn.isFVar && lhs.isApp) do continue
+    thms ← thms.add (.fvar ldecl.fvarId) #[] (mkFVar ldecl.fvarId)
+    n := n + 1
+  if n == 0 then throwError "py_rw_calls: no call equation in the context"
+  thms ← thms.addConst ``Py.ok_bind
+  thms ← thms.addConst ``Py.ok_map
+  let ctx ← Simp.mkContext (simpTheorems := #[thms]) (congrTheorems := ← getSimpCongrTheorems)
+  let (r, _) ← simpGoal g ctx (simplifyTarget := true)
+  match r with
+  | none => replaceMainGoal []
+  | some (_, g') =>
+    -- a program that is reduced to a value: `pure` form (for `mvcgen`)
+    let mut thms2 : SimpTheorems := {}
+    thms2 ← thms2.addConst ``Py.ok_eq_pure
+    let ctx2 ← Simp.mkContext (simpTheorems := #[thms2]) (congrTheorems := ← getSimpCongrTheorems)
+    try
+      let (r2, _) ← simpGoal g' ctx2 (simplifyTarget := true)
+      match r2 with
+      | none => replaceMainGoal []
+      | some (_, g'') => replaceMainGoal [g'']
+    catch _ => replaceMainGoal [g']
+
+/-- succeeds iff the goal still contains a weakest-precondition application (`mvcgen` got stuck) -/
+elab "py_is_wp" : tactic => withMainContext do
+  let tgt ← instantiateMVars (← (← getMainGoal).getType)
+  unless (tgt.find? (fun e => e.isConstOf ``Std.Do.wp)).isSome do
+    throwError "py_is_wp: no `wp` in the goal"
+
 macro "py_vc0" : tactic => `(tactic| (first | done | trivial | assumption | (simp_all; done) | omega))
 
 /-- The Unicode-table driven functions must never be unfolded by automation (huge literals):
@@ -291,7 +403,7 @@ macro "py_norm" : tactic => `(tactic|
      Py.contains_int_two, Py.contains_int_three, Py.contains_int_four, Py.contains_int_two_false,
      Py.contains_int_three_false, Py.contains_int_four_false,
      Py.all_map_strIn_chars, Py.any_map_not_strIn_chars, Py.all_strIn_chars, Py.any_not_strIn_chars,
-     Bool.or_false, Bool.false_or] at *))
+     Py.forall_digitBelow_iff, Bool.or_false, Bool.false_or] at *))
 
 /-- unfold the `let`-bound locals `mvcgen` introduces for reassigned variables -/
 macro "py_zeta" : tactic => `(tactic| (try simp (config := {zetaDelta := true, decide := false}) only [] at *))
@@ -403,18 +515,63 @@ elab "py_fixpoint_rw" : tactic => withMainContext do
     let t ← instantiateMVars ldecl.type
     let some (_, lhs, rhs) := t.eq? | continue
     unless rhs.isFVar && !lhs.isFVar && lhs.containsFVar rhs.fvarId! do continue
-    unless (← inferType rhs).isAppOfArity ``List 1 do continue
-    let hS ← Term.exprToSyntax (mkFVar ldecl.fvarId)
-    try evalTacticNR (← `(tactic| simp only [$hS:term] at *)) catch _ => pure ()
+    unless (← whnfR (← inferType rhs)).isAppOfArity ``List 1 do continue
+    -- rewrite everywhere except in the equation itself (it is needed again after a nested `mvcgen`)
+    let g ← getMainGoal
+    try
+      let mut thms : SimpTheorems := {}
+      thms ← thms.add (.fvar ldecl.fvarId) #[] (mkFVar ldecl.fvarId)
+      let ctx ← Simp.mkContext (simpTheorems := #[thms]) (congrTheorems := ← getSimpCongrTheorems)
+      let others := (← g.getNondepPropHyps).filter (· != ldecl.fvarId)
+      let (r, _) ← simpGoal g ctx (fvarIdsToSimp := others) (simplifyTarget := true)
+      match r with
+      | none => replaceMainGoal []
+      | some (_, g') => replaceMainGoal [g']
+    catch _ => pure ()
     return
 
 /-- `re.search` with a `^` pattern is `re.match` -/
 macro "py_rx_norm" : tactic => `(tactic|
   (try simp (disch := decide) only [Py.Re.search_eq_match] at *))
 
+/-- two look-ups of the same place, `e = some a` and `e = some b` (the getter repeats an indexing `validate` already
+did): identify `a` and `b` -/
+elab "py_same_some" : tactic => do
+  let mut fuel := 8
+  let mut progress := true
+  while progress && fuel > 0 do
+    fuel := fuel - 1
+    progress := false
+    let g ← getMainGoal
+    let r ← g.withContext do
+      let mut seen : Array (Expr × Expr × FVarId) := #[]
+      for ldecl in ← getLCtx do
+        if ldecl.isImplementationDetail then continue
+        let t ← instantiateMVars ldecl.type
+        let some (_, lhs, rhs) := t.eq? | continue
+        unless rhs.isAppOfArity ``Option.some 2 && rhs.appArg!.isFVar do continue
+        for (l', x', h') in seen do
+          if l' == lhs && x' != rhs.appArg! then
+            let prf ← mkAppM ``Option.some.inj #[← mkEqTrans (← mkEqSymm (mkFVar h')) (mkFVar ldecl.fvarId)]
+            let g1 ← g.assert `hss__ (← mkEq x' rhs.appArg!) prf
+            let (hv, g2) ← g1.intro1
+            try
+              let (_, g3) ← substCore g2 hv (symm := true) (tryToSkip := true)
+              return some g3
+            catch _ =>
+              try
+                let (_, g3) ← substCore g2 hv (symm := false) (tryToSkip := true)
+                return some g3
+              catch _ => continue
+        seen := seen.push (lhs, rhs.appArg!, ldecl.fvarId)
+      return none
+    if let some g' := r then
+      replaceMainGoal [g']
+      progress := true
+
 macro "py_prep" : tactic => `(tactic|
   (intros; py_clear_inv; py_zeta; all_goals (try py_subst_inacc); all_goals (try py_fixpoint_rw); all_goals py_cases_and; all_goals (try subst_vars); all_goals py_norm; all_goals py_cases_and;
-   all_goals (try subst_vars); all_goals py_rx_norm; all_goals (try py_rx_facts); all_goals py_recompact; all_goals py_facts; all_goals py_cursor))
+   all_goals (try subst_vars); all_goals (try py_same_some); all_goals py_rx_norm; all_goals (try py_rx_facts); all_goals py_recompact; all_goals py_facts; all_goals py_cursor))
 
 /-! ## step 3: strings of known length -/
 
@@ -639,6 +796,29 @@ elab "py_char_any" : tactic => withMainContext do
     let t ← instantiateMVars ldecl.type
     let some (_, l, r) := t.eq? | continue
     unless r.isConstOf ``Bool.true do continue
+    -- membership of a one- or two-character string in a table of strings
+    if l.isAppOfArity ``List.contains 4 && (l.getArg! 3).isAppOfArity ``List.cons 3 then
+      let k := l.getArg! 3
+      let tl := k.getArg! 2
+      let cands : List (Expr × Name) :=
+        if tl.isAppOfArity ``List.nil 1 then [(k.getArg! 1, ``Py.of_contains_single)]
+        else if tl.isAppOfArity ``List.cons 3 && (tl.getArg! 2).isAppOfArity ``List.nil 1 then
+          [(k.getArg! 1, ``Py.of_contains_pair_fst), (tl.getArg! 1, ``Py.of_contains_pair_snd)]
+        else []
+      let mut done := false
+      for (c, lem) in cands do
+        unless c.isFVar && lhs.containsFVar c.fvarId! do continue
+        let q ← mkLambdaFVars #[c] lhs
+        let qS ← Term.exprToSyntax q
+        let hS ← Term.exprToSyntax (mkFVar ldecl.fvarId)
+        let lemS := mkIdent lem
+        try
+          evalTacticNR (← `(tactic| exact $lemS (Q := $qS) (by decide) $hS))
+          done := true
+          break
+        catch _ => continue
+      if done then return
+      continue
     let (c, lem) ←
       if l.isAppOfArity ``List.contains 4 then pure (l.getArg! 3, ``Py.of_contains)
       else if l.isAppOfArity ``Py.isAsciiDigit 1 then pure (l.getArg! 0, ``Py.of_isAsciiDigit)
@@ -679,7 +859,13 @@ elab "py_char_any" : tactic => withMainContext do
     try
       evalTacticNR (← `(tactic| exact $lemS (Q := $qS) (by decide) $hS))
       return
-    catch _ => continue
+    catch _ => pure ()
+    if lem == ``Py.of_strOfInt_eq || lem == ``Py.of_strOfInt_eq' then
+      let lem2S := mkIdent (if lem == ``Py.of_strOfInt_eq then ``Py.of_strOfInt_nonneg_eq else ``Py.of_strOfInt_nonneg_eq')
+      try
+        evalTacticNR (← `(tactic| exact $lem2S (Q := $qS) (by decide) (by omega) $hS))
+        return
+      catch _ => pure ()
   throwError "py_char_any: no class fact applies"
 
 /-- goal `Q c = true` for a character class `Q`, from a class fact about the same character -/
@@ -788,6 +974,8 @@ macro_rules | `(tactic| py_allin) => `(tactic| first
   | exact Py.allIn_of_B ‹_›
   | exact Py.allIn_of_alphabet ‹_› (by decide)
   | exact Py.allIn_contains_of_digits ‹_› (by decide)
+  | exact Py.allIn_of_digits_any ‹_› (by decide)
+  | exact Py.allIn_of_digits_any (Py.allIn_of_B ‹_›) (by decide)
   | exact Py.allIn_contains_of_digits (Py.allIn_of_B ‹_›) (by decide)
   | (refine AllIn.slice ?_ _ _; py_allin)
   | (refine AllIn.sliceL ?_ _ _; py_allin)
@@ -835,6 +1023,8 @@ macro "py_close_generic" : tactic => `(tactic| (py_digits; first
   | done
   | assumption
   | exact Py.isDigits_of_alphabet ‹_› (by decide) (by omega) (by omega)
+  | exact Py.ne_nil_of_endswith ‹_› (by decide)
+  | exact Py.ne_nil_of_startswith ‹_› (by decide)
   | py_digit_elem
   | py_allin
   | (simp only [List.length_cons, List.length_nil] at *; omega)
@@ -896,6 +1086,67 @@ elab "py_recompact36" : tactic => withMainContext do
   evalTacticNR (← `(tactic| try simp (disch := first | assumption | decide) only
     [Py.cleanP_of_alphabet, Py.strip_of_alphabet, Py.upper_of_alphabet] at *))
 
+/-- goal about `(Spec.NumDB.info db L).length` for an explicit non-empty `L` (after `py_explode`) -/
+elab "py_numdb" : tactic => withMainContext do
+  let g ← getMainGoal
+  let tgt ← instantiateMVars (← g.getType)
+  let nterms := (tgt.collect (fun e => (e.isAppOfArity ``Spec.NumDB.info 2 || e.isAppOfArity ``Spec.NumDB.split 2)
+    && (e.getArg! 1).isAppOfArity ``List.cons 3) : Array Expr)
+  if nterms.isEmpty then throwError "py_numdb: no registry lookup in the goal"
+  for e in nterms do
+    let dS ← Term.exprToSyntax (e.getArg! 0)
+    let xS ← Term.exprToSyntax (e.getArg! 1)
+    let lem := mkIdent (if e.isAppOfArity ``Spec.NumDB.info 2 then ``Py.numdb_info_length_pos else ``Py.numdb_split_length_pos)
+    evalTacticNR (← `(tactic| have hnd__ := $lem $dS (n := $xS) (List.cons_ne_nil _ _)))
+  evalTacticNR (← `(tactic| omega))
+
+/-- `(k == c)` for a literal `k` and a character `c` whose class excludes `k` (a digit compared with a letter of a
+prefix that `compact` strips): rewrite to `false` -/
+elab "py_beq_lit" : tactic => withMainContext do
+  let g ← getMainGoal
+  let tgt ← instantiateMVars (← g.getType)
+  let isLit (e : Expr) : Bool := e.isRawNatLit || (e.isAppOfArity ``OfNat.ofNat 3 && (e.getArg! 1).isRawNatLit)
+  let terms := (tgt.collect (fun e => e.isAppOfArity ``BEq.beq 4 &&
+    ((isLit (e.getArg! 2) && (e.getArg! 3).isFVar) || (isLit (e.getArg! 3) && (e.getArg! 2).isFVar))) : Array Expr)
+  for t in terms do
+    let tS ← Term.exprToSyntax t
+    try
+      evalTacticNR (← `(tactic| have hbl__ : $tS = false := by
+        have hq__ : (!$tS) = true := by py_char_any
+        simpa using hq__))
+      evalTacticNR (← `(tactic| simp only [hbl__, Bool.false_and, Bool.and_false, Bool.false_eq_true, if_false, ite_false] at *))
+      evalTacticNR (← `(tactic| try clear hbl__))
+    catch _ => pure ()
+
+open Py.VcImpl in
+/-- `D.get(c, c)` for a transliteration table `D` and a character `c` of a known class that `D` does not touch
+(ASCII digits under an Arabic-digit table …): it is `c` -/
+elab "py_dict_id" : tactic => withMainContext do
+  let g ← getMainGoal
+  let mut es : Array Expr := #[(← instantiateMVars (← g.getType))]
+  for ldecl in ← getLCtx do
+    if ldecl.isImplementationDetail then continue
+    es := es.push (← instantiateMVars ldecl.type)
+  let single? (e : Expr) : Option Expr :=
+    if e.isAppOfArity ``List.cons 3 && (e.getArg! 2).isAppOfArity ``List.nil 1 && (e.getArg! 1).isFVar then some (e.getArg! 1) else none
+  let mut seen : Array Expr := #[]
+  for e in es do
+    for t in e.collect (fun t => t.isAppOfArity ``Py.dictGetD 6) do
+      if seen.contains t then continue
+      seen := seen.push t
+      let some c := single? (t.getArg! 4) | continue
+      unless t.getArg! 4 == t.getArg! 5 && !(t.getArg! 3).hasFVar do continue
+      let tS ← Term.exprToSyntax t
+      let kS ← Term.exprToSyntax (t.getArg! 4)
+      let _ := c
+      try
+        evalTacticNR (← `(tactic| have hdi__ : $tS = $kS := by
+          have hq__ : ($tS == $kS) = true := by py_char_any
+          exact eq_of_beq hq__))
+        evalTacticNR (← `(tactic| simp only [hdi__] at *))
+        evalTacticNR (← `(tactic| try clear hdi__))
+      catch _ => pure ()
+
 /-- closers after `py_explode; py_eval`: everything is about explicit characters -/
 macro "py_close_concrete1" : tactic => `(tactic| (first
   | done
@@ -904,11 +1155,13 @@ macro "py_close_concrete1" : tactic => `(tactic| (first
   | py_char
   | decide
   | py_dict_has
+  | py_numdb
   | (py_clear_big; simp_all (config := {decide := false}) [isDigitsB, IsDigits, Py.digitsVal_two, Py.digitsVal_three, Py.digitsVal_four]; done)
   | (py_clear_big; simp_all (config := {decide := false}) [isDigitsB, IsDigits, Py.digitsVal_two, Py.digitsVal_three, Py.digitsVal_four]; omega)))
 
 macro "py_close_concrete" : tactic => `(tactic|
-  (py_rx_fixed; py_chars; all_goals (try subst_vars); all_goals (try py_recompact36);
+  (py_rx_fixed; py_chars; all_goals (try subst_vars);
+   all_goals (py_split_ite <;> (try py_chars)); all_goals (try subst_vars); all_goals (try py_recompact36);
    all_goals (try simp (disch := omega) only [Py.strOfInt_digit] at *); all_goals (try py_eval); all_goals (try subst_vars);
    all_goals (py_split_mem <;> py_split_ite <;> (py_chars; all_goals (try subst_vars); all_goals first
     | done
@@ -988,6 +1241,79 @@ elab "py_alnum36" : tactic => withMainContext do
       (simp only [List.all_cons, List.all_nil, Bool.and_eq_true, Bool.and_true]; (repeat' apply And.intro) <;> (first | py_char_any | decide))))
   catch _ => pure ()
 
+/-! ## C04v: re-compacting a formatted number (`compact (format v) = v`) -/
+namespace Py
+
+theorem all_contains_slice {A s : Str} (hs : s.all (fun c => A.contains c) = true) (a b : Option Int) :
+    (slice s a b).all (fun c => A.contains c) = true := by
+  rw [List.all_eq_true] at *
+  intro c hc
+  exact hs c (mem_slice hc)
+
+/-- the pieces `format` cuts an accepted digit string into survive `clean` unchanged -/
+theorem cleanP_slice_digits {s d : Str} (a b : Option Int) (h : AllIn isAsciiDigit s)
+    (hd : d.all (fun c => !isAsciiAlnum c) = true) : cleanP (slice s a b) d = slice s a b :=
+  cleanP_digits (AllIn.slice h a b) hd
+
+theorem cleanP_slice_isDigitsB {s d : Str} (a b : Option Int) (h : isDigitsB s = true)
+    (hd : d.all (fun c => !isAsciiAlnum c) = true) : cleanP (slice s a b) d = slice s a b :=
+  cleanP_slice_digits a b (allIn_of_B h) hd
+
+theorem cleanP_slice_alphabet {A s d : Str} (a b : Option Int) (hs : s.all (fun c => A.contains c) = true)
+    (hA : A.all (fun c => decide (c < 128) && (c != 96) && !d.contains c) = true) :
+    cleanP (slice s a b) d = slice s a b :=
+  cleanP_of_alphabet (all_contains_slice hs a b) hA
+
+theorem slice_zero_none (s : Str) : slice s (some 0) none = s := by
+  simp [slice, sliceL, loIdx, hiIdx, normIdx]
+
+theorem slice_zero_some (s : Str) (b : Int) : slice s (some 0) (some b) = slice s none (some b) := by
+  simp [slice, sliceL, loIdx, hiIdx, normIdx]
+
+theorem slice_none_some_ge (s : Str) {k : Int} (h : (s.length : Int) ≤ k) : slice s none (some k) = s := by
+  have hk : ¬ k < 0 := by omega
+  simp only [slice, sliceL, loIdx, hiIdx, normIdx, if_neg hk, List.drop_zero, Nat.sub_zero]
+  apply List.take_of_length_le
+  omega
+
+theorem slice_some_some_ge (s : Str) {a k : Int} (h : (s.length : Int) ≤ k) : slice s (some a) (some k) = slice s (some a) none := by
+  have hk : ¬ k < 0 := by omega
+  have hm : min k.toNat s.length = s.length := by omega
+  simp only [slice, sliceL, loIdx, hiIdx, normIdx, if_neg hk, hm]
+
+theorem getItem_neg_eq_slice (s : Str) {k : Int} (hk : k < -1) (h : -k ≤ s.length) :
+    getItem s k = .ok (slice s (some k) (some (k + 1))) := by
+  have e1 : getItem s k = getItem s (s.length + k) := by
+    unfold getItem getItemL
+    have h1 : k < 0 := by omega
+    have h2 : ¬ ((s.length : Int) + k < 0) := by omega
+    simp only [if_pos h1, if_neg h2]
+  have e2 : slice s (some k) (some (k + 1)) = slice s (some (s.length + k)) (some (s.length + k + 1)) := by
+    have h1 : k < 0 := by omega
+    have h1' : k + 1 < 0 := by omega
+    have h2 : ¬ ((s.length : Int) + k < 0) := by omega
+    have h3 : ¬ ((s.length : Int) + k + 1 < 0) := by omega
+    simp only [slice, sliceL, loIdx, hiIdx, normIdx, if_pos h1, if_pos h1', if_neg h2, if_neg h3]
+    congr 2 <;> omega
+  rw [e1, e2, getItem_eq_slice s (by omega) (by omega)]
+
+theorem getItem_neg_one_eq_slice' (s : Str) (h : 0 < s.length) : getItem s (-1) = .ok (slice s (some (-1)) none) :=
+  getItem_neg_one_eq_slice s (List.ne_nil_of_length_pos h)
+theorem zfill_idem (s : Str) (w : Int) : zfill (zfill s w) w = zfill s w :=
+  zfill_eq_self (by rw [zfill_length]; omega)
+
+/-- the separators `format` inserts are deleted by `clean` -/
+theorem cleanP_sep_nil {s d : Str} (h : s.all (fun c => decide (c < 128) && (c != 96) && d.contains c) = true) :
+    cleanP s d = [] := by
+  induction s with
+  | nil => rfl
+  | cons c t ih =>
+    simp only [List.all_cons, Bool.and_eq_true, decide_eq_true_eq, bne_iff_ne, ne_eq] at h
+    rw [cleanP_cons, cm_of_ascii_ne h.1.1.1 h.1.1.2, if_pos h.1.2]
+    exact ih (by simpa using h.2)
+
+end Py
+
 /-- evaluate an unfolded `compact` under the path conditions and the gates in the context -/
 macro "py_compact_eval" : tactic => `(tactic|
   (simp (disch := first | assumption | decide | omega) only [Py.clean_eq, bind, Except.bind, pure, Except.pure,
@@ -995,7 +1321,7 @@ macro "py_compact_eval" : tactic => `(tactic|
       Py.cleanP_digits, Py.upper_of_asciiDigits, Py.lower_of_asciiDigits, Py.strip_eq_self_of_asciiDigit,
       Py.cleanP_of_alphabet, Py.strip_of_alphabet, Py.upper_of_alphabet,
       Py.cleanP_idem, Py.strip_strip, Py.lstripChars_idem, Py.rstripChars_idem, Py.stripChars_idem, Py.lstrip_idem,
-      Py.rstrip_idem, Py.zfill_eq_self, Py.startswith_false_of_digits,
+      Py.rstrip_idem, Py.zfill_eq_self, Py.zfill_idem, Py.startswith_false_of_digits,
       Bool.false_eq_true, if_false, ite_false, if_true, ite_true, reduceIte, *]))
 
 /-- C02i: at the return point of validate (all gates in the context) the returned string `T` is what compact gives for
@@ -1007,31 +1333,72 @@ macro "py_c02 " f:ident : tactic => `(tactic| (py_prep; all_goals first
      · (unfold $f:ident; first | rfl | (py_compact_eval; first | done | rfl))
      · first
        | (unfold $f:ident; py_compact_eval; first | done | rfl)
-       | (py_split_len <;> (py_explode; py_eval; all_goals (try subst_vars); all_goals py_chars; all_goals (try subst_vars); all_goals py_alnum36; all_goals (unfold $f:ident); all_goals py_compact_eval; all_goals (first | done | rfl | (py_eval; first | done | rfl))))
+       | (py_split_len <;> (py_explode; py_eval; all_goals (try subst_vars); all_goals py_chars; all_goals (try subst_vars); all_goals (py_split_ite <;> (try py_chars)); all_goals (try subst_vars); all_goals py_alnum36; all_goals (unfold $f:ident); all_goals py_compact_eval; all_goals (first | done | rfl | (py_eval; first | done | rfl | (py_beq_lit; first | done | rfl) | ((try simp only [List.map_cons, List.map_nil]); py_dict_id; (try simp only [Py.join, List.intersperse, List.flatten_cons, List.flatten_nil, List.append_nil, List.nil_append, List.cons_append, List.intercalate]); (try py_eval); first | done | rfl)))))
      · first
        | exact Py.strip_strip _
        | exact Py.strip_of_isDigitsB ‹_›
        | exact Py.strip_eq_self_of_asciiDigit _ ‹_›
        | exact Py.strip_of_alphabet ‹_› (by decide)
        | (simp (disch := first | assumption | decide) only [Py.strip_strip, Py.strip_of_isDigitsB, Py.strip_of_alphabet]; done)
-       | (py_split_len <;> (py_explode; py_eval; all_goals (try subst_vars); all_goals py_chars; all_goals (try subst_vars); all_goals py_alnum36; all_goals (first | done | exact Py.strip_of_alphabet ‹_› (by decide)))))))
+       | (py_split_len <;> (py_explode; py_eval; all_goals (try subst_vars); all_goals py_chars; all_goals (try subst_vars); all_goals (py_split_ite <;> (try py_chars)); all_goals (try subst_vars); all_goals py_alnum36; all_goals (first | done | exact Py.strip_of_alphabet ‹_› (by decide)))))))
 
 /-- the same with the first conjunct `compact v0 = ok T` (evaluate compact under the path conditions) -/
 macro "py_gates_c " f:ident : tactic => `(tactic| (py_prep; all_goals first
   | done
   | exact True.intro
   | (refine ⟨?_, ?_⟩
-     · (unfold $f:ident; first | rfl | (py_compact_eval; first | done | rfl))
+     · ((try unfold $f:ident); first | rfl | (py_compact_eval; first | done | rfl))
      · first
        | assumption
        | ((repeat' apply And.intro) <;> first | assumption | omega | (simp_all; done))
        | (simp_all; done))
-  | (unfold $f:ident; first | rfl | (py_compact_eval; first | done | rfl))))
+  | ((try unfold $f:ident); first | rfl | (py_compact_eval; first | done | rfl))))
 
 /-- `h : compact v = ok v`: turn it into the equation `strip (upper (cleanP v d)) = v` (when compact is unconditional) -/
 macro "py_compact_eq " h:ident f:ident : tactic => `(tactic|
   (try (unfold $f:ident at $h:ident
         simp only [Py.clean_eq, bind, Except.bind, pure, Except.pure, Except.ok.injEq] at $h:ident)))
+
+/-- C04v: evaluate `format T` and `compact (format T)` for an accepted `T` (gates in the context): the pieces
+`format` cuts `T` into survive `clean`, the separators are deleted, and consecutive slices concatenate to `T` -/
+macro "py_c04_eval" : tactic => `(tactic|
+  (simp (disch := (first | assumption | decide | omega | (simp (config := {decide := true}) only [Py.loIdx, Py.hiIdx, Py.normIdx, Int.reduceLT, reduceIte, if_true, if_false, Int.reduceNeg, Int.toNat_natCast, Int.reduceToNat] at *; omega))) only [Py.clean_eq, bind, Except.bind, pure, Except.pure,
+      Py.join_cons_cons, Py.join_singleton, Py.join_empty, Py.cleanP_append, Py.cleanP_nil,
+      Py.cleanP_slice_isDigitsB, Py.cleanP_slice_digits, Py.cleanP_slice_alphabet, Py.cleanP_sep_nil,
+      List.append_nil, List.nil_append, List.append_assoc,
+      Py.getItem_eq_slice, Py.getItem_neg_one_eq_slice, Py.getItem_neg_one_eq_slice', Py.getItem_neg_eq_slice, Int.reduceAdd, Int.reduceSub, Int.reduceNeg, Py.slice_none_some_ge, Py.slice_some_some_ge,
+      Py.slice_zero_none, Py.slice_zero_some, Py.slice_none_none, Py.slice_append_drop, Py.slice_append_slice_const, Py.slice_none_append_slice_const,
+      Py.slice_append_slice_none_const, Py.slice_append_slice_neg, Py.slice_append_slice,
+      Py.cleanP_of_isDigitsB, Py.upper_of_isDigitsB, Py.lower_of_isDigitsB, Py.strip_of_isDigitsB,
+      Py.cleanP_digits, Py.upper_of_asciiDigits, Py.lower_of_asciiDigits, Py.strip_eq_self_of_asciiDigit,
+      Py.cleanP_of_alphabet, Py.strip_of_alphabet, Py.upper_of_alphabet,
+      Py.cleanP_idem, Py.strip_strip, Py.lstripChars_idem, Py.rstripChars_idem, Py.stripChars_idem, Py.lstrip_idem,
+      Py.rstrip_idem, Py.zfill_eq_self, Py.zfill_idem, Py.startswith_false_of_digits,
+      Except.ok.injEq, exists_eq_left', exists_eq_left,
+      Bool.false_eq_true, if_false, ite_false, if_true, ite_true, reduceIte, *]))
+
+/-- the same on an exploded `T` (letters/check characters: the character classes are only known per position) -/
+macro "py_c04x" : tactic => `(tactic|
+  ((try simp only [Py.clean_eq, bind, Except.bind, pure, Except.pure]);
+   (try py_recompact36);
+   (try simp (disch := first | assumption | decide) only [Py.join_cons_cons, Py.join_singleton, Py.join_empty, Py.cleanP_append, Py.cleanP_nil,
+      Py.cleanP_sep_nil, List.append_nil, List.nil_append, Except.ok.injEq, exists_eq_left', exists_eq_left,
+      Py.getItem_eq_slice, Py.getItem_neg_one_eq_slice, Py.getItem_neg_one_eq_slice', Py.getItem_neg_eq_slice, Int.reduceAdd, Int.reduceSub, Int.reduceNeg, List.length_cons, List.length_nil]);
+   (try py_eval);
+   (try py_recompact36);
+   (try simp (disch := first | assumption | decide) only [Py.cleanP_append, Py.cleanP_nil, Py.cleanP_sep_nil, List.append_nil, List.nil_append,
+      List.cons_append, Except.ok.injEq, exists_eq_left', exists_eq_left]);
+   (try py_recompact36);
+   (try py_eval)))
+
+/-- C04v: at the return point of validate (all gates in the context): `∃ f, format T = ok f ∧ compact f = ok T` -/
+macro "py_c04 " fmt:ident cmp:ident : tactic => `(tactic| (py_prep; all_goals first
+  | done
+  | exact True.intro
+  | (unfold $fmt:ident; (try unfold $cmp:ident); py_c04_eval; done)
+  | (unfold $fmt:ident; (try unfold $cmp:ident); py_c04_eval; first | rfl | (refine ⟨_, rfl, ?_⟩; first | rfl | (py_c04_eval; first | done | rfl)))
+  | (unfold $fmt:ident; (try unfold $cmp:ident); py_c04_eval; split <;> first | done | rfl | (py_c04_eval; first | done | rfl))
+  | (py_split_len <;> (py_explode; py_eval; all_goals (try subst_vars); all_goals py_chars; all_goals (try subst_vars); all_goals (py_split_ite <;> (try py_chars)); all_goals (try subst_vars); all_goals (unfold $fmt:ident; (try unfold $cmp:ident); py_c04x; first | done | rfl | (py_c04x; first | done | rfl))))))
 
 /-- the closing tactic used by the generated contract proofs -/
 macro_rules | `(tactic| py_vc) => `(tactic| py_vc3)
